@@ -160,6 +160,7 @@ func ProfileFor(prop string) *Profile {
 		p.PCrashRun = 0.3
 		p.PRouted = 0
 	case "C11":
+		p.Collide = true
 		p.PTiny = 0.5
 		p.PJump = 0.15
 		p.PLazyOnly = 0
@@ -185,9 +186,11 @@ func ProfileFor(prop string) *Profile {
 		p.PLazyOnly = 0.05
 		p.Prologue = "tasks"
 		p.TimeoutRel = []int64{0, 1000, 5000, 60000, 10_000_000, 10_000_000, 10_000_000}
-		p.Promises = []string{"p0", "p1", "a:b", "b:c", "a"}
+		p.Promises = []string{"p0", "a:b", "b:c", "a", "c"}
+		p.Collide = true
 	case "C15":
 		p.PFront = 1
+		p.PSynth = 0.3
 		p.PTiny = 0.35
 		p.PFaultRun = 0.6
 		p.PShutdown = 0.15
